@@ -1917,11 +1917,64 @@ class C09(Prop):
                 res.nontrivial.add((c.path, core.doc_render(c.docs[0])))
             res.dist['text:' + cls_of(r0 or 'P')] += 1
 
+    def native_numbers(self, ctx, res, g, budget_scale):
+        """documents assembled in Go code holding native Go numbers (int, int64, uint8, float32) next to float64 and json.Number
+        members of the SAME numeric value, compared with that value: <= must be < or ==, >= must be > or ==, != the complement of ==,
+        whatever each operator makes of a native number (the model: a native number is not a JSON number and matches nothing)"""
+        r = g.r
+        native = {'int3': 3.0, 'int4': 4.0, 'int64': 5.0, 'uint8': 6.0, 'float32': 1.5}
+        groups = []
+        for i in range(ctx.n(25, 250) * budget_scale):
+            kinds = r.sample(sorted(native), r.randint(1, 3))
+            lit = native[r.choice(kinds)]
+            vals = [('x', k) for k in kinds] + [('n', lit), ('n', lit - 1), ('n', lit + 1), ('j', repr(lit)), ('s', b'3')][:r.randint(2, 5)]
+            r.shuffle(vals)
+            wrap = r.random() < 0.5
+            body = ('a', [('o', [(b'a', v), (b'u', ('n', float(j)))]) for j, v in enumerate(vals)] if wrap else vals)
+            opnd = '@.a' if wrap else '@'
+            lt_ = repr(lit) if r.random() < 0.5 else '%g' % lit
+            cs = {op: Case('nn%d_%s' % (i, nm), ('$[?(%s %s %s)]' % (opnd, op, lt_)).encode(), [body], meta={'family': 'native-numbers'})
+                  for op, nm in (('<', 'lt'), ('<=', 'le'), ('==', 'eq'), ('>=', 'ge'), ('>', 'gt'), ('!=', 'ne'))}
+            groups.append(cs)
+        flat = [c for cs in groups for c in cs.values()]
+        go, mo = both_sides(flat)
+        by_id = {c.id: (g_, m) for c, g_, m in zip(flat, go, mo)}
+        for cs in groups:
+            res.evaluations += 1
+            sel = {}
+            bad = False
+            for op, c in cs.items():
+                g_, m = by_id[c.id]
+                hp = harness_problem(g_) or harness_problem(m)
+                if hp:
+                    res.violation('broken-correspondence', 'harness:' + hp[:60], hp, c)
+                    bad = True
+                    break
+                a, b = g_.get('R0', ''), m.get('R0', '')
+                if (a if a.startswith('ok:') else cls_of(a)) != (b if b.startswith('ok:') else cls_of(b)):
+                    res.disagreements_checked += 1
+                    res.violation('concrete', sig_of(c, 'native-number-vs-model'), '%r over native Go numbers differs from the model' % (c.path,), c, expected=b, observed=a)
+                sel[op] = values_of(a) if a.startswith('ok:') else []
+            if bad:
+                continue
+            allm = [core.doc_render(v) for v in cs['<'].docs[0][1]]
+            def as_set(l):
+                return sorted(l)
+            if as_set(sel['<=']) != as_set(set(sel['<']) | set(sel['=='])) or as_set(sel['>=']) != as_set(set(sel['>']) | set(sel['=='])):
+                res.violation('concrete', sig_of(cs['<='], 'le-is-lt-or-eq'), '<= / >= must select what < / > or == select: %r' % (cs['<='].path,), cs['<='],
+                              expected={'<': sel['<'], '==': sel['==']}, observed={'<=': sel['<='], '>=': sel['>=']})
+            if as_set(sel['!=']) != as_set(set(allm) - set(sel['=='])):
+                res.violation('concrete', sig_of(cs['!='], 'ne-is-complement'), '!= must select the members == does not: %r' % (cs['!='].path,), cs['!='],
+                              expected=sorted(set(allm) - set(sel['=='])), observed=sel['!='])
+            res.nontrivial.add((cs['<='].path, core.doc_render(cs['<='].docs[0])))
+            res.dist['native-numbers'] += 1
+
     def run(self, ctx, res, budget_scale=1, seed_offset=0):
         g = gens.G(ctx.seed * 23 + 9 + seed_offset)
         r = g.r
         n = ctx.n(2500, 50000) * budget_scale
         self.from_text(ctx, res, gens.G(ctx.seed * 29 + 99 + seed_offset), budget_scale)
+        self.native_numbers(ctx, res, gens.G(ctx.seed * 31 + 7 + seed_offset), budget_scale)
         sp = gens.Spelling()
         fams = []
         for i in range(n):
@@ -3256,6 +3309,25 @@ class C19(Prop):
                 path = r.choice([b'$.a.x', b'$.a[0]', b'$.a.*', b'$.c.a.y', b'$.b[0].z', b'$.b[*].z', b'$.a..x', b'$.a[?(@.x)]', b'$.b[1][0]'])
                 d = r.choice([jdoc, sdoc, doc])
                 cfg = {'filters': [], 'aggs': [], 'acc': False, 'nocfg': True}
+                ops.append((dict(op='retrieve', path_hex=hx(path), doc=core.doc_go(d), mutate=False, **cfg), d))
+            hists.append((ops, True))
+        # something very large just before: a path of thousands of steps, a retrieval returning more than a thousand values
+        # (oversized parser tables and pooled buffers are what a library may decide to rebuild or trim), then ordinary calls
+        # with and without a Config
+        bigdoc = ('a', [('n', float(k)) for k in range(1500)])
+        for i in range(max(6, n // 150)):
+            ops = []
+            if r.random() < 0.6:
+                long_path = b'$' + r.choice([b'.a', b'[0]', b'.*']) * r.choice([1000, 1400])
+                ops.append((dict(op='retrieve', path_hex=hx(long_path), doc=core.doc_go(doc), mutate=False, filters=[], aggs=[], acc=False, nocfg=True), doc))
+            else:
+                ops.append((dict(op='retrieve', path_hex=hx(r.choice([b'$[*]', b'$..*', b'$[0:]', b'$[?(@ >= 0)]'])), doc=core.doc_go(bigdoc), mutate=False,
+                                 filters=[], aggs=[], acc=False, nocfg=True), bigdoc))
+            for _ in range(r.randint(1, 3)):
+                path, needs = r.choice(LEAK_PROBES)
+                cfg = r.choice([{'filters': gens.FILTER_FUNCS, 'aggs': gens.AGG_FUNCS, 'acc': r.random() < 0.5, 'nocfg': False},
+                                {'filters': [], 'aggs': [], 'acc': True, 'nocfg': False}, {'filters': [], 'aggs': [], 'acc': False, 'nocfg': True}])
+                d = r.choice([doc, doc2])
                 ops.append((dict(op='retrieve', path_hex=hx(path), doc=core.doc_go(d), mutate=False, **cfg), d))
             hists.append((ops, True))
         # several Configs handed to one call (only the first is documented to count), then the FIRST Config object used again
